@@ -24,6 +24,8 @@ def run(ctx):
     r172(ctx, api)
     r173(ctx, api)
     from . import callsigs as _cs
+    from . import findings3 as _f3
+    _f3.dtype_lookup(ctx, 'R17.13')
     _cs.general_rules(ctx, 'R17', ['api.ParquetFile', 'api._pre_allocate', 'core.read_row_group_arrays', 'core.read_row_group', 'dataframe'])
 
 
